@@ -192,7 +192,16 @@ fn fork_here(flag: &AtomicBool, n: u64) {
         if !exited_ok {
             FORK_FAILED.lock().unwrap_or_else(|e| e.into_inner()).push(n);
         }
+    } else {
+        FORK_ERRORS.fetch_add(1, Ordering::Relaxed);
     }
+}
+
+static FORK_ERRORS: AtomicU64 = AtomicU64::new(0);
+
+/// number of polls at which fork() itself failed (the sweep is incomplete then)
+pub fn fork_errors() -> u64 {
+    FORK_ERRORS.load(Ordering::Relaxed)
 }
 
 /// Arms forking for the polls lo..=hi of the next search (0, 0 disarms).
